@@ -107,6 +107,16 @@ func transitionsIn(loc *time.Location) []int64 {
 		if end.IsZero() || end.After(limit) {
 			break
 		}
+		// (beyond the zone's table of explicit transitions ZoneBounds stops making progress and keeps returning one and
+		// the same instant that is no offset change at all: the list ends there)
+		if n := len(out); n > 0 && end.Unix() <= out[n-1] {
+			break
+		}
+		if _, o1 := end.Add(-time.Second).Zone(); true {
+			if _, o2 := end.Zone(); o1 == o2 {
+				break
+			}
+		}
 		out = append(out, end.Unix())
 		t = end.Add(time.Hour)
 	}
